@@ -175,6 +175,7 @@ def run(s):
     collections(s, 80 if q else 6000)
     odd_timing_inserts(s, 3 if q else 60)
     forced_types(s, 400 if q else 20000)
+    K.idless_cases(s)
 
 
 def gates(agg, tier):
